@@ -36,14 +36,18 @@ def cell_diffs(a, b, eng_schema=None, limit=60):
 def main():
   args = json.loads(sys.argv[1])
   l = args["l"]
-  rec = histories.run_history(args["seed"], profile=args["profile"], n_bundles=args["n_bundles"],
-                              hooks={"keep_states": True}, **args.get("kw", {}))
+  if args["profile"].startswith("fault:"):
+    rec = histories.run_fault_history(args["seed"], profile=args["profile"][6:], n_bundles=args["n_bundles"],
+                                      hooks={"keep_states": True}, **args.get("kw", {}))
+  else:
+    rec = histories.run_history(args["seed"], profile=args["profile"], n_bundles=args["n_bundles"],
+                                hooks={"keep_states": True}, **args.get("kw", {}))
   ev = rec.events[l - 1]
   states = rec.states
   def before(i):     # state before event i (1-based)
     return states[i - 2] if i >= 2 else {}
   ctx = {"tag": ev["tag"], "k": ev["k"], "of": ev["of"], "exc": ev.get("exc", ""),
-         "uas": rec.full[l - 1], "note": ev["uas"]}
+         "uas": rec.full[l - 1], "note": ev["uas"], "fault": ev.get("fault"), "fired": ev.get("fired")}
   raw = rec.raw[l - 1]
   if isinstance(raw, dict) and "stored" in raw:
     ctx["stored_names"] = [a[0] for a in raw["stored"]]
